@@ -400,7 +400,14 @@ class Topology(ABC):
         :param name:
         :return:
         """
-        self.graph_model.remove_ns_with_cps_and_links(node_id=self._get_ns_by_name(name=name).node_id)
+        ns = self._get_ns_by_name(name=name)
+        # ports that peer() created on other services exist only for the peering with this service
+        for i in ns.interface_list:
+            peers = i.get_peers(itype=InterfaceType.ServicePort)
+            if peers:
+                for p in peers:
+                    self.graph_model.remove_cp_and_links(node_id=p.node_id)
+        self.graph_model.remove_ns_with_cps_and_links(node_id=ns.node_id)
 
     def _get_node_by_name(self, name: str) -> Node:
         """
